@@ -149,6 +149,7 @@ std::string gen_hosts(Src &s) {
       if (tail == 0) l += sep(s) + "# comment words";
       else if (tail == 1) l += "#glued";
       else if (tail == 2) l += sep(s) + "#c " + pick(s, HOST_NAMES);
+      else if (tail == 3) l += std::string("#glued") + sep(s) + "hidden.example" + sep(s) + pick(s, HOST_NAMES);
     } else if (kind == 8) l = std::string("# ") + pick(s, HOST_ADDRS) + " commented";
     else if (kind == 9) l = s.flag() ? "" : " \t ";
     else if (kind == 10) l = std::string(pick(s, HOST_ADDRS)) + sep(s) + std::string(100 + s.below(900), 'h') + sep(s) + "after-long";
@@ -395,8 +396,8 @@ extern "C" int LLVMFuzzerTestOneInput(const uint8_t *data, size_t size) {
     for (auto &h : ref.hosts) { bool dup = false; for (auto &n : names) if (rcref::eq_nocase(n, h.name)) dup = true; if (!dup && names.size() < 24) names.push_back(h.name); }
     int nprobe = names.empty() ? (s.chance(1, 4) ? 1 : 0) : 1 + s.below(4);
     for (int p = 0; p < nprobe; p++) {
-      std::string name; bool miss = names.empty() || s.chance(1, 6);
-      if (miss) name = s.flag() ? "no-such-host.example" : "alph";
+      std::string name; bool miss = names.empty() || s.chance(1, 4);
+      if (miss) { int k = s.below(12); name = k == 0 ? "no-such-host.example" : k == 1 ? "alph" : k == 2 ? "hidden.example" : HOST_NAMES[s.below(sizeof HOST_NAMES / sizeof HOST_NAMES[0])]; }
       else { name = names[s.below((uint32_t)names.size())]; if (s.chance(1, 3)) for (char &ch : name) { if (ch >= 'a' && ch <= 'z' && s.flag()) ch -= 32; else if (ch >= 'A' && ch <= 'Z' && s.flag()) ch += 32; } }
       if (looks_numeric(name) || name.empty()) continue;
       static const int FAMS[] = {AF_UNSPEC, AF_INET, AF_INET6}; int fam = FAMS[s.below(3)];
